@@ -41,7 +41,7 @@ LexLess(u, v) == \E i \in 1..Len(u) : u[i] < v[i] /\ \A j \in 1..(i - 1) : u[j] 
 Coefs == {ab \in (0..CoefMax) \X (0..CoefMax) : Gcd(ab[1], ab[2]) = 1}
 E0 == [i \in 1..(N + 1) |-> IF i = 1 THEN 1 ELSE 0]                 \* the origin of the ball
 Inf == [i \in 1..(N + 1) |-> IF i <= 2 THEN 1 ELSE 0]               \* the half-space point at infinity
-Rows(S) == SetSeq(S)
+Rows(Q) == SetSeq(Q)
 
 (***************************************************************************)
 (* the families                                                            *)
@@ -74,7 +74,7 @@ PlaneCases == {[W |-> w] : w \in Normals}
 PlaneOK(c) == Cardinality(IdealOn(c.W)) >= N
 
 Init == \/ Kind = "segment" /\ cs \in SegCases /\ SegOK(cs)
-        \/ Kind = "near" /\ cs \in NearCases /\ SegOK([cs EXCEPT !.U = <<0, 0, 0>>])
+        \/ Kind = "near" /\ cs \in NearCases /\ cs.a[1] * cs.b[2] # cs.a[2] * cs.b[1]
         \/ Kind = "horo" /\ cs \in HoroCases
         \/ Kind = "horoarc" /\ cs \in ArcCases /\ ArcOK(cs)
         \/ Kind = "subspace" /\ cs \in SubCases /\ SubOK(cs)
@@ -114,37 +114,50 @@ SegExp ==
       hu |-> IF SegHs THEN HsOnBoundary(HsHoriz(U)) ELSE <<>>, hv |-> IF SegHs THEN HsOnBoundary(HsHoriz(V)) ELSE <<>>,
       h1 |-> IF SegHs THEN ChordHalfSurd(U, V, cs.a) ELSE <<>>, h2 |-> IF SegHs THEN ChordHalfSurd(U, V, cs.b) ELSE <<>>]
 
+\* literal checks in rational model coordinates are evaluated on the cases with small entries (32-bit integers);
+\* the square-root-free integer forms of the same statements are checked on every case
+Lit == /\ \A i \in 1..(N + 1) : Abs(cs.U[i]) <= 5 /\ Abs(cs.V[i]) <= 5
+       /\ \A i \in 1..2 : cs.a[i] <= 2 /\ cs.b[i] <= 2
+
+\* <v,v> = 0; for the large vectors of the near-diameter family (n = 2) as a difference of squares
+IsNull(v) == IF \A i \in 1..Len(v) : Abs(v[i]) <= 20000 THEN MNorm(v) = 0
+             ELSE IF Abs(v[2]) > Abs(v[3]) THEN v[3] * v[3] = (v[1] - v[2]) * (v[1] + v[2])
+             ELSE v[2] * v[2] = (v[1] - v[3]) * (v[1] + v[3])
 \* the ideal end points are lightlike, distinct, and the end points lie on the chord between them (Klein model)
 SegIdeal ==
-  IsSeg => /\ MNorm(cs.U) = 0 /\ MNorm(cs.V) = 0 /\ Prim(cs.U) # Prim(cs.V)
+  IsSeg => /\ IsNull(cs.U) /\ IsNull(cs.V) /\ Prim(cs.U) # Prim(cs.V)
            /\ P1[1] > 0 /\ P2[1] > 0 /\ Prim(P1) # Prim(P2)
-           /\ NegNorm(P1) = ChordNegNorm(cs.U, cs.V, cs.a) /\ NegNorm(P1) >= 0 /\ NegNorm(P2) >= 0
+           /\ SmallSeg => NegNorm(P1) = ChordNegNorm(cs.U, cs.V, cs.a)
+           /\ ChordNegNorm(cs.U, cs.V, cs.a) >= 0 /\ ChordNegNorm(cs.U, cs.V, cs.b) >= 0
            /\ SmallSeg => \A i, j \in 1..N :
                  LET ku == KleinOf(cs.U)
                      kv == KleinOf(cs.V)
                      k == KleinOf(P1)
                  IN RMul(RSub(k[i], ku[i]), RSub(kv[j], ku[j])) = RMul(RSub(k[j], ku[j]), RSub(kv[i], ku[i]))
-\* the circle: through both ideal end points and both end points, orthogonal to the unit sphere, centre in the
-\* plane of the geodesic; it depends only on the geodesic; a diameter iff the ideal end points are antipodal
+\* the circle: through both ideal end points and both end points (<W,X> = 0 <=> centre . klein(X) = 1 <=> the
+\* Poincare point of X is on the circle), orthogonal to the unit sphere, centre in the plane of the geodesic;
+\* it depends only on the geodesic; a diameter iff the ideal end points are antipodal
 SegCircle ==
   IsSeg =>
     LET W == SegPole
         c == PoleCentre(W)
+        ku == KleinOf(cs.U)
+        kv == KleinOf(cs.V)
     IN /\ SegStraight <=> VAdd(SpatialOf(VScale(cs.V[1], cs.U)), SpatialOf(VScale(cs.U[1], cs.V))) = [i \in 1..N |-> 0]
        /\ OnPole(W, cs.U) /\ OnPole(W, cs.V) /\ OnPole(W, P1) /\ OnPole(W, P2)
        /\ ~SegStraight =>
             /\ W[1] > 0 /\ MNorm(W) > 0
             /\ PoleRadSq(W) = RSub(NormSqCD(c), ROne)                            \* orthogonal to the unit sphere
-            /\ DistSqCD(KleinOf(cs.U), c) = PoleRadSq(W) /\ DistSqCD(KleinOf(cs.V), c) = PoleRadSq(W)
-            /\ DotCD(c, KleinOf(P1)) = ROne /\ DotCD(c, KleinOf(P2)) = ROne
-            /\ c = RScale(RDiv(ROne, RAdd(ROne, DotCD(KleinOf(cs.U), KleinOf(cs.V)))), RVAdd(KleinOf(cs.U), KleinOf(cs.V)))
-       /\ SmallSeg => /\ GeoPole(P1, P2) = W /\ GeoPole(cs.U, P2) = W
-                      /\ (N = 2 => Normal3(P1, P2) = W)
+            /\ DistSqIs(ku, c, PoleRadSq(W)) /\ DistSqIs(kv, c, PoleRadSq(W))
+            /\ c = RScale(RDiv(ROne, RAdd(ROne, DotCD(ku, kv))), RVAdd(ku, kv))
+            /\ SmallSeg => /\ DotCD(c, KleinOf(P1)) = ROne /\ DotCD(c, KleinOf(P2)) = ROne
+                           /\ (N = 2 => Normal3(P1, P2) = W /\ Normal3(cs.U, cs.V) = W)
+       /\ SmallSeg => GeoPole(P1, P2) = W /\ GeoPole(cs.U, cs.V) = W
 \* on the perfect-square sub-universe the end points have rational Poincare coordinates: they are on the circle, the
 \* surd record is the Poincare point of HypCoords, and the square-root-free rule for the start of the arc is right:
 \* counter-clockwise from `first` to the other end point one stays between the ideal end points
 SegArc ==
-  (IsSeg /\ SquareSeg /\ ~SegStraight) =>
+  (IsSeg /\ Lit /\ SquareSeg /\ ~SegStraight) =>
     LET W == SegPole
         c == PoleCentre(W)
         q1 == Poincare(Prim(P1))
@@ -155,31 +168,38 @@ SegArc ==
         g == PoincareFirst(W, cs.U, cs.V)
         ua == KleinOf(IF g = 1 THEN cs.U ELSE cs.V)
         ub == KleinOf(IF g = 1 THEN cs.V ELSE cs.U)
-    IN /\ DistSqCD(q1, c) = PoleRadSq(W) /\ DistSqCD(q2, c) = PoleRadSq(W)
+    IN /\ DistSqIs(q1, c, PoleRadSq(W)) /\ DistSqIs(q2, c, PoleRadSq(W))
        /\ q1 = [i \in 1..N |-> R(P1[i + 1], P1[1] + Sqrt(NN(P1)))]
        /\ N = 2 => /\ Orient(c, ua, ub) > 0 /\ Orient(c, qa, qb) > 0
                    /\ Orient(c, ua, qa) >= 0 /\ Orient(c, qb, ub) >= 0
                    /\ PoincareFirstOf(P1, P2) = f
                    /\ \A t \in {qa, qb} : RLeq(NormSqCD(t), ROne)
+\* the square-root-free rule on every case of n = 2: it does not depend on which two points of the geodesic are
+\* used to find the circle, and swapping the end points swaps the answer
+SegFirst ==
+  (IsSeg /\ N = 2 /\ ~SegStraight) =>
+    /\ PoincareFirstOnChord(cs.U, cs.V, cs.b, cs.a) = 3 - PoincareFirstOnChord(cs.U, cs.V, cs.a, cs.b)
+    /\ PoincareFirstOnChord(cs.U, cs.V, <<1, 0>>, <<0, 1>>) = PoincareFirst(SegPole, cs.U, cs.V)
+    /\ SmallSeg => PoincareFirst(SegPole, P1, P2) = PoincareFirstOnChord(cs.U, cs.V, cs.a, cs.b)
 \* half-space: centre on the boundary, equidistant from the ideal end points and from the end points; agreement
 \* with the Cayley transform of HypCoords; right to left is counter-clockwise above the boundary
 SegHalf ==
-  (IsSeg /\ SegHs /\ SmallSeg) =>
+  (IsSeg /\ SegHs) =>
     LET m == HsGeoCentre(cs.U, cs.V)
         r2 == HsGeoRadSq(cs.U, cs.V)
     IN /\ HsHeightSq(cs.U) = RZero /\ HsHeightSq(cs.V) = RZero
-       /\ HsDistSq(cs.U, m) = r2 /\ HsDistSq(cs.V, m) = r2 /\ HsDistSq(P1, m) = r2 /\ HsDistSq(P2, m) = r2
-       /\ RSgn(r2) > 0
-       /\ (N = 2 /\ HsHoriz(P1) # HsHoriz(P2)) => HsCentre2(P1, P2) = m[1]
-       /\ (N = 2 /\ SquareSeg) =>
+       /\ DistSqCD(HsHoriz(cs.U), m) = r2 /\ DistSqCD(HsHoriz(cs.V), m) = r2 /\ RSgn(r2) > 0
+       /\ N = 2 => /\ HsPoleCentre(Normal3(cs.U, cs.V)) = m /\ HsPoleRadSq(Normal3(cs.U, cs.V)) = r2   \* the pole describes the same circle
+                   /\ HsHoriz(P1) # HsHoriz(P2)
+       /\ Lit => /\ HsDistSq(P1, m) = r2 /\ HsDistSq(P2, m) = r2
+                 /\ (N = 2) => HsCentre2(P1, P2) = m[1]
+       /\ (Lit /\ SquareSeg) =>
             LET h1 == Halfspace(Prim(P1))
                 h2 == Halfspace(Prim(P2))
                 f == HalfFirst(P1, P2)
             IN /\ SubSeq(h1, 1, N - 1) = HsHoriz(P1) /\ RSq(h1[N]) = HsHeightSq(P1) /\ RSgn(h1[N]) >= 0
-               /\ Orient(HsOnBoundary(m), IF f = 1 THEN h1 ELSE h2, IF f = 1 THEN h2 ELSE h1) > 0
-       /\ (N > 2 /\ SquareSeg) =>
-            LET h1 == Halfspace(Prim(P1))
-            IN SubSeq(h1, 1, N - 1) = HsHoriz(P1) /\ RSq(h1[N]) = HsHeightSq(P1)
+               /\ N = 2 => LET o == Orient(HsOnBoundary(m), IF f = 1 THEN h1 ELSE h2, IF f = 1 THEN h2 ELSE h1)
+                           IN o >= 0 /\ (o = 0 => NN(P1) = 0 /\ NN(P2) = 0)       \* half a turn: the whole geodesic
 
 (***************************************************************************)
 (* horospheres                                                             *)
@@ -267,7 +287,7 @@ SubLaws ==
     /\ SubHs => \A z \in SubPts : ~AtHsInfinity(z)
     /\ ~SubStraight =>
          LET W == SubPole(cs.basis)
-         IN /\ W[1] > 0 /\ MNorm(W) > 0 /\ RankOf(Append(cs.basis, W)) = Len(cs.basis)
+         IN /\ W[1] > 0 /\ MNorm(W) > 0
             /\ \A z \in SubPts : OnPole(W, z) /\ DistSqCD(KleinOf(z), PoleCentre(W)) = PoleRadSq(W)
             /\ PoleRadSq(W) = RSub(NormSqCD(PoleCentre(W)), ROne)
 
@@ -291,7 +311,7 @@ PlaneLaws ==
        /\ Straight(W) <=> OnPole(W, E0)
        /\ ~Straight(W) => \A z \in IdealOn(cs.W) : DistSqCD(KleinOf(z), PoleCentre(W)) = PoleRadSq(W)
        /\ PlaneHs => \A z \in IdealOn(cs.W) : ~AtHsInfinity(z) /\ DistSqCD(HsHoriz(z), HsPoleCentre(cs.W)) = HsPoleRadSq(cs.W)
-       /\ (RankOf(Rows(IdealOn(cs.W))) = N /\ ~Straight(W)) => SubPole(Rows(IdealOn(cs.W))) = Prim(W)
+       /\ (Cardinality(IdealOn(cs.W)) = N /\ RankOf(Rows(IdealOn(cs.W))) = N /\ ~Straight(W)) => SubPole(Rows(IdealOn(cs.W))) = W
 
 (***************************************************************************)
 (* emission                                                                *)
